@@ -36,3 +36,7 @@ Proof. intros Hn I Ha. destruct (step_src rnd sparse n pen dist s a) as [E _]. r
 Lemma src_mask_iff_legal n s a : zlen (s_visited_mask s) = n -> 0 <= a < n ->
   (jget false (o_action_mask (state_to_observation s)) a = true <-> M.legal (conv s) a).
 Proof. intros L Ha. exact (C04_mask_iff_legal n (conv s) a L Ha). Qed.
+
+(* C03 on the translated step: never FIRST, MID with discount 1 or LAST with discount 0 (no truncation) -- any state, any action *)
+Lemma src_step_protocol rnd sparse n pen dist s a : step_ok 1 false (snd (step n (reward_model rnd sparse n pen dist) s a)) = true.
+Proof. destruct (step_src rnd sparse n pen dist s a) as [_ E]. rewrite E. apply C03_step_protocol. Qed.
